@@ -303,6 +303,21 @@ def shard_main(args):
     tmpdir = tempfile.mkdtemp(prefix=f'vp-{mod.PROP_ID}-{shard}-')
     ctx = Ctx(tmpdir, tier)
     try:
+        init = getattr(mod, 'shard_init', None)
+        if init is not None:
+            init(tier)          # before any case ran in this process (e.g. C12 forks its pristine zygote here)
+        # regression tier: stored cases of fixed findings, run first (by shard 0)
+        rdir = os.path.join(VERIF, 'regress', mod.PROP_ID)
+        if shard == 0 and os.path.isdir(rdir):
+            for fn in sorted(os.listdir(rdir)):
+                if fn.endswith('.json'):
+                    with open(os.path.join(rdir, fn)) as f:
+                        doc = json.load(f)
+                    case = doc['case'] if 'case' in doc else doc
+                    obs = mod.run_case(case, ctx)
+                    stats.record(mod, known, case, obs)
+                    stats.counters['regression_cases'] += 1
+                    ctx.clean()
         # deterministic enumerated cases, split round-robin over shards
         enum = getattr(mod, 'enumerate_cases', None)
         if enum is not None:
@@ -367,6 +382,12 @@ def shard_main(args):
                                                                exc.__traceback__))[-4000:])
     finally:
         shutil.rmtree(tmpdir, ignore_errors=True)
+        close = getattr(mod, 'shard_close', None)
+        if close is not None:
+            try:
+                close()
+            except Exception:
+                pass
     return json.loads(json.dumps(stats.dump(), default=_json_default))
 
 
@@ -433,20 +454,6 @@ def main(mod_name, tier, seed, nshards=None, budget=None, quiet=True):
     shrink_s = float(os.environ.get('VERIF_SHRINK_S', shrink_s))
 
     shutil.rmtree(os.path.join(VERIF, 'replays', pid), ignore_errors=True)   # stale files of earlier runs
-    stats_pre = Stats()
-    # regression tier: stored cases of fixed findings / earlier shrunk failures, run first
-    rdir = os.path.join(VERIF, 'regress', pid)
-    n_regress = 0
-    if os.path.isdir(rdir):
-        for fn in sorted(os.listdir(rdir)):
-            if fn.endswith('.json'):
-                with open(os.path.join(rdir, fn)) as f:
-                    doc = json.load(f)
-                case = doc['case'] if 'case' in doc else doc
-                obs = run_single(mod, case, tier)
-                stats_pre.record(mod, known, case, obs)
-                n_regress += 1
-
     args = [(mod_name, tier, seed, s, nshards, per, shrink_s, quiet) for s in range(nshards)]
     if nshards == 1:
         dumps = [shard_main(args[0][:-1] + (False,))]
@@ -454,7 +461,8 @@ def main(mod_name, tier, seed, nshards=None, budget=None, quiet=True):
         ctx = mp.get_context('fork')
         with ctx.Pool(nshards) as pool:
             dumps = pool.map(shard_main, args, chunksize=1)
-    tot = merge([json.loads(json.dumps(stats_pre.dump(), default=_json_default))] + dumps)
+    tot = merge(dumps)
+    n_regress = int(tot.counters.pop('regression_cases', 0))
 
     rc = 0
     if tot.errors:
